@@ -13,7 +13,7 @@
 //!   api             A.union(B) A.intersection(B) A.similarity(B) A.containment(B)  -> u=.. i=.. s=<bits> c=<bits>
 //!   consist         the four API answers all derive from one joint_mle triple       -> consistent | inconsistent <what>
 //!   jhist           joint_mle's only-A/only-B equal mle(counts(merge(A,B))) - mle(counts(B|A)) at relerr 0.01 -> same | differ
-//!   jbound          union / intersection estimates against the true sizes          -> within | outside <what>
+//!   jbound          union / intersection estimates against the true sizes (10 sigma of |A ∪ B|, + 1) -> within | outside <what>
 use sourmash::signature::SigsTrait;
 use sourmash::sketch::hyperloglog::estimators;
 use sourmash::sketch::hyperloglog::HyperLogLog;
@@ -341,12 +341,16 @@ fn step(st: &mut St, ws: &[&str]) -> String {
                     let (ti, tu) = overlap(a, b);
                     let mut bad = vec![];
                     let u = (oa + ob + it) as u64;
-                    if !within(u, tu, tu, p, 6, 1) {
+                    // union() is onlyA + onlyB + max(0, inter): three differences of five estimates,
+                    // with a negative intersection clipped to 0 (which biases the union of disjoint
+                    // sets upwards).  Window: 10 sigma of the union size, + 1 (worst seen on the
+                    // unchanged tree over 8 seeds / both tiers: 7.4 sigma at p = 4, 5.1 at p = 18).
+                    if !within(u, tu, tu, p, 10, 1) {
                         bad.push("union")
                     }
                     // the intersection is a difference of estimates of size ~ |A ∪ B|: its error
                     // scales with the union, not with the intersection itself
-                    if !within(it as u64, ti, tu, p, 6, 1) {
+                    if !within(it as u64, ti, tu, p, 10, 1) {
                         bad.push("intersection")
                     }
                     if bad.is_empty() {
